@@ -4,4 +4,6 @@ Require Import ExtrOcamlBasic.
 From Adapt Require Import Num.Qaux Num.SignedZero Dialect.SepPairModel.
 Extraction "c18_model.ml" sp_default addSep transform isVAlign isHAlign isVerticalCardinal isHorizontalCardinal
   getCardinalDir holdsb tf_place generateSeparationConstraint vc_holdsb
-  m_addSep m_addFixedRelativeSep m_getCardinalDir m_areAligned m_transform sep_equivb coincideb.
+  m_addSep m_addFixedRelativeSep m_getCardinalDir m_areAligned m_transform sep_equivb coincideb
+  m_addFixedRelativeSepPos m_setCardinalOP m_hAlign m_vAlign m_alignByEquatedCoord m_free m_clear m_setSepPair
+  m_transformClosedSubset m_transformOpenSubset m_removeNode m_removeNodes m_corresponding m_roundGapsUpward m_holdsb.
